@@ -197,6 +197,7 @@ func (r *Report) Mismatch(key, kind, mismatch string, d D) {
 // MaybeReplay handles `-replay <file>`: runs the recorded case once through
 // its runner, prints the outcome and exits (1 = still fails).
 func MaybeReplay() {
+	MaybeCold()
 	if len(os.Args) > 2 && os.Args[1] == "-replay" {
 		v := LoadReplay(os.Args[2])
 		d := D(v.Detail)
@@ -212,6 +213,9 @@ func MaybeReplay() {
 		if runners[v.Kind] == nil {
 			fmt.Println("no single-case runner for this kind; re-run the check to reproduce")
 			os.Exit(2)
+		}
+		if cs, _ := d["cold_start"].(bool); cs {
+			ReplayResult(v, ColdExec(v.Kind, d))
 		}
 		if nc, _ := d["needs_concurrency"].(bool); nc {
 			// the recorded case only fails while the same call runs on other goroutines
